@@ -30,7 +30,7 @@ ASSUMPTIONS = ["reference model vmon/ref/gto.py after self-test"]
 
 
 def gen_cases(tier, seed):
-    n = 60 if tier == "quick" else 720
+    n = 120 if tier == "quick" else 720
     cases = []
     for i in range(n):
         rng = bases.rng_for("C08", seed, tier, i)
